@@ -129,6 +129,8 @@ def r05_2(ctx):
             for b in lps[0].body for x in ast.walk(b))
         (out.ok if ok else out.bad)(q, f"~x for every x in self.{coll}" if ok else
                                     f"the complement does not invert every element of self.{coll}", where=f2.where())
+    from rules import C09
+    C09.single_curve_projection(ctx, out)
     f3 = ctx.fn("shape.SimpleShape.__invert__")
     ok = any(isinstance(x, ast.UnaryOp) and isinstance(x.op, ast.Invert) for x in ast.walk(f3.node))
     (out.ok if ok else out.bad)(f3.qname, "built from the inverted curve" if ok else "the curve is not inverted", where=f3.where())
